@@ -47,12 +47,10 @@ structure InvD (w : Workload) (s : State) : Prop where
   /-- the body of a coroutine that was not dropped is left only after the whole program (or what an escaped failure left of it) -/
   left_todo : (s.pc = .fin ∨ s.pc = .done ∨ s.pc = .gone) → s.dropped = false → s.todo = []
 
-/-- a core nobody else can reach keeps its executor until the one resumption it can cause -/
+/-- nobody writes the executor stored in an awaited core that is not a Task (since 8ca0444: the resumed coroutine copies it) -/
 structure InvE (w : Workload) (s : State) : Prop where
-  cexec : ∀ j, w.unsafeCell j = false → (w.cell j).lazy = false →
-    (s.cells j).cexec = (w.cell j).exec0 ∨ ((s.word j).isResult = true ∧ (s.word j).cbs = [] ∧ s.pc ≠ .wake (.cell j))
-  rec_cell_exec : ∀ r ∈ s.resumed, ∀ j, r.ctx = .cell j → w.unsafeCell j = false → (w.cell j).lazy = false →
-    r.exAfter = (w.cell j).exec0
+  cexec : ∀ j, (w.cell j).lazy = false → (s.cells j).cexec = (w.cell j).exec0
+  rec_cell_exec : ∀ r ∈ s.resumed, ∀ j, r.ctx = .cell j → (w.cell j).lazy = false → r.exAfter = (w.cell j).exec0
 
 theorem invD_init (w : Workload) : InvD w (init w) := by
   constructor <;> simp [init, inOp, outcome]
